@@ -426,8 +426,8 @@ class SdrFullSensorRecord(SdrCommon):
         self.units_2 = buffer.pop_unsigned_int(1)
         self.units_3 = buffer.pop_unsigned_int(1)
         self.analog_data_format = (self.units_1 >> 6) & 0x3
-        self.rate_unit = (self.units_1 >> 3) >> 0x7
-        self.modifier_unit = (self.units_1 >> 1) & 0x2
+        self.rate_unit = (self.units_1 >> 3) & 0x7
+        self.modifier_unit = (self.units_1 >> 1) & 0x3
         self.percentage = self.units_1 & 0x1
         # byte 24
         self.linearization = buffer.pop_unsigned_int(1) & 0x7f
@@ -446,7 +446,7 @@ class SdrFullSensorRecord(SdrCommon):
         acc_accexp = buffer.pop_unsigned_int(1)
         self.b = (b & 0xff) | ((b_acc & 0xc0) << 2)
         self.b = self._convert_complement(self.b, 10)
-        self.accuracy = (b_acc & 0x3f) | ((acc_accexp & 0xf0) << 4)
+        self.accuracy = (b_acc & 0x3f) | ((acc_accexp & 0xf0) << 2)
         self.accuracy_exp = (acc_accexp & 0x0c) >> 2
         # byte 30
         rexp_bexp = buffer.pop_unsigned_int(1)
